@@ -188,7 +188,10 @@ fn import_words(words: &[Arg], sg: i128, prev: (bool, &Vec<u64>)) -> Verdict {
     ctx(must_return("BigUint::from_slice", || BigUint::from_slice(&w)).and_then(|v| eq_bu(&v, &n)), "BigUint::from_slice")?;
     ctx(
         must_return("BigUint::assign_from_slice", || {
+            // the target may be longer than the new value and carry spare capacity from an earlier, larger value
             let mut t = bu(prev.1);
+            t <<= 700u32;
+            t >>= 700u32;
             t.assign_from_slice(&w);
             t
         })
@@ -353,7 +356,7 @@ fn byte_string() -> BoxedStrategy<Vec<u8>> {
         40 => proptest::sample::select(vec![0u8, 1, 0x7f, 0x80, 0x81, 0xfe, 0xff]),
         60 => any::<u8>(),
     ];
-    (vec(byte, 0..=40), 0usize..=9, proptest::sample::select(vec![0u8, 0xff]), any::<bool>())
+    (prop_oneof![85 => vec(byte.clone(), 0..=40), 15 => vec(byte, 41..=400)], 0usize..=9, proptest::sample::select(vec![0u8, 0xff]), any::<bool>())
         .prop_map(|(mut core, pad, padbyte, do_pad)| {
             if do_pad {
                 core.extend(std::iter::repeat(padbyte).take(pad));
@@ -390,7 +393,7 @@ impl Property for C09 {
             40 => proptest::sample::select(vec![0u32, 1, u32::MAX, 1 << 31]),
             60 => any::<u32>(),
         ];
-        let words = (vec(word, 0..=12), 0usize..=4, -1i128..=1, any::<bool>(), gen::nat(4)).prop_map(|(mut w, z, sg, pneg, prev)| {
+        let words = (prop_oneof![85 => vec(word.clone(), 0..=12), 15 => vec(word, 13..=120)], 0usize..=4, -1i128..=1, any::<bool>(), prop_oneof![70 => gen::nat(4), 30 => gen::nat(40)]).prop_map(|(mut w, z, sg, pneg, prev)| {
             w.extend(std::iter::repeat(0).take(z));
             Case::new(
                 "import.words",
